@@ -391,6 +391,58 @@ func c08Families(tier string) []explore.Family {
 		{"m.b.b", func(m *ref.Map) refRes { return refRes{} }},
 		{"m.missing.b", func(m *ref.Map) refRes { return refRes{} }},
 	}
+	// an index reads the entry whose KEY EQUALS it - a value of another kind is not a key: an integer is not the
+	// string it is the code point or the spelling of, 2.5 is not 2, 300 is not uint8(44). Maps with string, named
+	// string, int, uint8 and interface keys x indices of every kind that could be confused with a key.
+	type keyCase struct {
+		name string
+		m    any
+		hits map[string]string // printed form of the index (see idxs) -> value; everything else must be nil
+	}
+	keyMaps := []keyCase{
+		{`map[string]any{"A","1","65","é","2.5","true"}`, map[string]any{"A": "cp", "1": "one", "65": "sixtyfive", "é": "e", "2.5": "f", "true": "t"},
+			map[string]string{`"A"`: "cp", `"1"`: "one", `"65"`: "sixtyfive", `"é"`: "e", `"2.5"`: "f", `"true"`: "t", `named"A"`: "cp"}},
+		{`map[NamedString]any{"A","65"}`, map[univ.NamedString]any{"A": "cp", "65": "sixtyfive"}, map[string]string{`"A"`: "cp", `"65"`: "sixtyfive", `named"A"`: "cp"}},
+		{`map[int]any{2,44,65}`, map[int]any{2: "two", 44: "ff", 65: "sf"}, map[string]string{"2": "two", "int64(2)": "two", "uint8(2)": "two", "65": "sf", "44": "ff"}},
+		{`map[uint8]any{44,2}`, map[uint8]any{44: "u8", 2: "two"}, map[string]string{"2": "two", "int64(2)": "two", "uint8(2)": "two", "44": "u8"}},
+		{`map[any]any{"A",65,2.5,true}`, map[any]any{"A": "cp", 65: "sf", 2.5: "f", true: "t"}, map[string]string{`"A"`: "cp", `named"A"`: "cp", "65": "sf", "2.5": "f", "true": "t"}},
+	}
+	type idxCase struct {
+		name string
+		v    any
+	}
+	idxs := []idxCase{{`"A"`, "A"}, {`"1"`, "1"}, {`"65"`, "65"}, {`"é"`, "é"}, {`"2.5"`, "2.5"}, {`"true"`, "true"}, {`named"A"`, univ.NamedString("A")}, {`"2"`, "2"}, {`"44"`, "44"},
+		{"65", 65}, {"1", 1}, {"49", 49}, {"233", 233}, {"2", 2}, {"int64(2)", int64(2)}, {"uint8(2)", uint8(2)}, {"44", 44}, {"300", 300}, {"-212", -212}, {"2.5", 2.5}, {"65.5", 65.5},
+		{"true", true}, {"false", false}, {"nil", nil}, {"[]", []any{}}, {`["A"]`, []any{"A"}}, {"{}", map[string]any{}}}
+	// numerically equal keys of another numeric kind (2.0 for the key 2): whether they match is not stated
+	unspecIdx := map[string]bool{}
+	fams = append(fams, explore.Family{Name: "map-index-of-another-kind", Count: int64(len(keyMaps) * len(idxs)), Run: func(i int64, r *explore.Rec) {
+		kc, ic := keyMaps[int(i)%len(keyMaps)], idxs[int(i)/len(keyMaps)]
+		if unspecIdx[ic.name] {
+			return
+		}
+		want := kc.hits[ic.name]
+		src := "{{ m[k] }}|{{ m[k] | default: 'none' }}|{% if m[k] %}T{% else %}F{% endif %}"
+		exp := want + "|" + want + "|T"
+		if want == "" {
+			exp = "|none|F"
+		}
+		r.Eval()
+		r.Transition()
+		r.Trace()
+		o := Render(c08.eng, src, map[string]any{"m": kc.m, "k": ic.v})
+		desc := map[string]any{"template": src, "m": kc.name, "k": ic.name}
+		r.Class(fmt.Sprintf("key-kinds/%v", want != ""))
+		if o.Panic != nil || o.Err != nil || o.Out != exp {
+			r.Violation("wrong-value:map-index-of-another-kind:"+strings.SplitN(kc.name, "{", 2)[0]+":"+fmt.Sprintf("%T", ic.v), desc, exp, o.String())
+		}
+		r.Eval()
+		os := Render(c08.strict, "{{ m[k] }}", map[string]any{"m": kc.m, "k": ic.v})
+		if want == "" && os.Err == nil {
+			r.Violation("strict-nil-not-error:map-index-of-another-kind", desc, "error (no such key)", os.String())
+		}
+	}})
+
 	fams = append(fams, explore.Family{Name: "map-lookup-grid", Count: int64(len(maps) * len(mapForms)), Run: func(i int64, r *explore.Rec) {
 		mc, f := maps[int(i)%len(maps)], mapForms[int(i)/len(maps)]
 		want := f.eval(mc.l)
